@@ -139,7 +139,9 @@ def perturbed_lattice(dim, n):
     return pts
 
 
-def _job(args):
+def _job(args, only=None):
+    """only = (pts, pattern, nnps name): evaluate just that configuration
+    (replay)."""
     kname, dim, two, thorough, seed = args
     from compyle.config import get_config
     get_config().use_openmp = False
@@ -201,10 +203,18 @@ def _job(args):
             st = len(cs) // lim + 1
             cs = cs[seed % st::st]
         combos += cs
+    if only is not None:
+        combos = [None]
     for ms in combos:
-        pts = [lat[i] for i in ms]
+        pts = [lat[i] for i in ms] if only is None else \
+            [tuple(q) for q in only[0]]
+        if two and len(pts) < 2:
+            # the second array would be empty: the one-array job covers a
+            # single particle, and the octree classes have a recorded C01
+            # finding (undefined behaviour) on empty arrays
+            continue
         npat = 3 if not thorough else 9
-        for pattern in range(npat):
+        for pattern in (range(npat) if only is None else [only[1]]):
             if two:
                 split = [pts[0::2], pts[1::2]]
             else:
@@ -217,8 +227,8 @@ def _job(args):
             holder['arrays'] = arrs
             ev.update_particle_arrays(arrs)
             ev2.func_eval.update_particle_arrays(arrs)
-            for nn_name in (NNPS if (ncfg % 5 == 0 or thorough)
-                            else NNPS[:1]):
+            for nn_name in ((NNPS if (ncfg % 5 == 0 or thorough)
+                             else NNPS[:1]) if only is None else [only[2]]):
                 if nn_name != 'LinkedListNNPS':
                     nn = getattr(N, nn_name)(dim=dim, particles=arrs,
                                              radius_scale=kernel.radius_scale)
@@ -264,7 +274,8 @@ def _job(args):
                                     L.tolist(), sc, nn_name),
                                 dict(pts=pts, pattern=pattern, nnps=nn_name)))
     # summation density strictly positive wherever a particle sees itself
-    return ncfg, nontriv, {k: (w, dict(rep, kernel=kname, dim=dim, two=two))
+    return ncfg, nontriv, {k: (w, dict(rep, kernel=kname, dim=dim, two=two,
+                                       seed=seed))
                            for k, (w, rep) in viol.items()}
 
 
@@ -352,11 +363,18 @@ def run(ctx):
                    'EDAC pressure gradient is pair-symmetric only for a '
                    'uniform p_avg: the field is set uniform',
                    'neighbour algorithms with recorded C01 findings (z-order '
-                   'family cross-array search) are not used here',
+                   'family cross-array search) are not used here, and no '
+                   'array is ever empty (octree finding)',
                    'compiled with OpenMP off']
     return Result('exploration', cov, assumptions, vs)
 
 
 def replay(ctx, obj):
-    return dict(violates=True, note='re-run bin/check C09: configurations '
-                'are evaluated inside a compiled evaluator per kernel', **obj)
+    if 'h' in obj:
+        n, _, viol = _density_job((obj['kernel'], obj['dim']))
+    else:
+        n, _, viol = _job((obj['kernel'], obj['dim'], obj['two'], False,
+                           obj.get('seed', ctx.seed)),
+                          only=(obj['pts'], obj['pattern'], obj['nnps']))
+    return dict(violates=bool(viol),
+                problems=[(k, w[:300]) for k, (w, r) in sorted(viol.items())])
